@@ -315,6 +315,9 @@ func report(prop, tier string, seed int, ps PropSpec, results []*harnessResult, 
 		if e.Truncated {
 			inconclusive = append(inconclusive, fmt.Sprintf("%s: exploration truncated (path or time budget) after %d paths", r.Spec.Fn, e.Paths))
 		}
+		if e.StoppedEarly {
+			fmt.Printf("%s%v: stopped early (another harness of this check already found a violation)\n", r.Spec.Fn, r.Spec.Params)
+		}
 		if e.sol.Errors > 0 {
 			inconclusive = append(inconclusive, fmt.Sprintf("%s: %d solver error lines", r.Spec.Fn, e.sol.Errors))
 		}
